@@ -37,6 +37,7 @@ const (
 	vpFileClose
 	vpGCRecheck
 	vpFreeSend
+	vpCloseRetire2
 )
 
 // VerifHook is called before every instrumented step of package nitro.
@@ -115,6 +116,7 @@ var VerifPointNames = map[int]string{
 	vpFileClose:    "FILE_CLOSE",
 	vpGCRecheck:    "GC_RECHECK",
 	vpFreeSend:     "FREE_SEND",
+	vpCloseRetire2: "CLOSE_RETIRE2",
 }
 
 // VerifRetired lists the snapshot numbers waiting in the dead list.
